@@ -158,6 +158,7 @@ def units(tier):
     wrap("C03.quick_setup.refreshes_what_setup_pure_phases_takes_from_the_component", BD.unit_quick_setup_pairing)
     wrap("C03.setup_exchange.capacity_is_the_sum_over_components", BD.unit_setup_exchange_capacity)
     wrap("C03.build_pure_phases.each_element_charged_to_its_own_balance", BD.unit_mineral_elements)
+    wrap("C03.model.parked_amounts_given_back_on_every_return", BD.unit_model_inert_bracket)
     return us
 
 
